@@ -92,6 +92,16 @@ def main():
         b = s.index("<!-- SEED-MATRIX-END -->")
         s = s[:a] + "\n" + "\n".join(table) + "\n" + s[b:]
         open(dp, "w").write(s)
+    else:
+        # some seeds only: replace their rows in the existing table
+        dp = os.path.join(VERIF, "DESIGN.md")
+        lines = open(dp).read().split("\n")
+        for row in rows:
+            key = row.split("|")[1].strip()
+            for i, l in enumerate(lines):
+                if l.startswith(f"| {key} |"):
+                    lines[i] = row
+        open(dp, "w").write("\n".join(lines))
     missed = [r[0] for r in results if r[2] == "MISSED"]
     print("missed:", missed)
 
